@@ -85,6 +85,11 @@ func configs(thorough bool) []bcfg {
 		mk(w, 1, "transport+follower", menuTransport, menuA)
 		mk(w, 1, "offline+leader", nil, menuB)
 	}
+	// two faults per path on the shorter words: pairs of a transport fault and a follower fault (e.g. a lost
+	// round trip followed by a follower that lost its log) need a budget of 2
+	for _, w := range words(2) {
+		mk(w, 2, "transport+follower", menuTransport, menuA)
+	}
 	return out
 }
 
